@@ -74,6 +74,15 @@ def call_graph(prog):
                       "std::array::map", "std::iter::Iterator::fold"):
                 for cn in c.closure_args():
                     s.add(cn)
+            # closures handed to a helper introduced by refactoring (not part of the baseline vocabulary, hence not a
+            # deferral primitive): assumed to run now
+            if tg in prog.auto_inline():
+                for cn in c.closure_args():
+                    s.add(cn)
+        # fn items used as values (`helper(Self::try_destruct)`): may be called by whoever receives them
+        for (bi, path) in b.fn_refs():
+            if path in prog.bodies:
+                s.add(path)
         g[name] = s
     return g
 
